@@ -6,7 +6,7 @@
 set -u
 cd "$(dirname "$0")/.."
 REPO="${KV_REPO:-/repo}"
-DIRS="${@:-$(ls -d seeded/C*)}"
+DIRS="${@:-$(ls -d seeded/*/)}"
 fail=0
 for d in $DIRS; do
   [ -f "$d/patch.diff" ] || continue
